@@ -12,8 +12,8 @@ MANIFEST = dict(
 
 FOCUS = {'close': 3, 'apply': 12, 'ready': 12, 'ack': 12, 'map': 4, 'feed': 6, 'tick': 6, 'tick_close': 4, 'exit': 5}
 
-REAL_QUICK = [{'kind': 'close_join', 'n': 2, 'applies': 6, 'map': 7, 'imap': 3}, {'kind': 'close_join', 'n': 3, 'applies': 9, 'before_close': 0.3}, {'kind': 'close_join', 'n': 2, 'applies': 6, 'maxtasks': 1, 'watchdog': 30}]
-REAL_THOROUGH = [{'kind': 'close_join', 'n': 1, 'applies': 0, 'map': 0, 'imap': 0, 'before_close': 0}, {'kind': 'close_join', 'n': 1, 'applies': 0, 'map': 0, 'imap': 0, 'before_close': 0.4}, {'kind': 'close_join', 'n': 1, 'applies': 0, 'map': 0, 'imap': 4, 'before_close': 0}, {'kind': 'close_join', 'n': 1, 'applies': 0, 'map': 0, 'imap': 4, 'before_close': 0.4}, {'kind': 'close_join', 'n': 1, 'applies': 0, 'map': 9, 'imap': 0, 'before_close': 0}, {'kind': 'close_join', 'n': 1, 'applies': 0, 'map': 9, 'imap': 0, 'before_close': 0.4}, {'kind': 'close_join', 'n': 1, 'applies': 0, 'map': 9, 'imap': 4, 'before_close': 0}, {'kind': 'close_join', 'n': 1, 'applies': 0, 'map': 9, 'imap': 4, 'before_close': 0.4}, {'kind': 'close_join', 'n': 1, 'applies': 5, 'map': 0, 'imap': 0, 'before_close': 0}, {'kind': 'close_join', 'n': 1, 'applies': 5, 'map': 0, 'imap': 0, 'before_close': 0.4}, {'kind': 'close_join', 'n': 1, 'applies': 5, 'map': 0, 'imap': 4, 'before_close': 0}, {'kind': 'close_join', 'n': 1, 'applies': 5, 'map': 0, 'imap': 4, 'before_close': 0.4}, {'kind': 'close_join', 'n': 1, 'applies': 5, 'map': 9, 'imap': 0, 'before_close': 0}, {'kind': 'close_join', 'n': 1, 'applies': 5, 'map': 9, 'imap': 0, 'before_close': 0.4}, {'kind': 'close_join', 'n': 1, 'applies': 5, 'map': 9, 'imap': 4, 'before_close': 0}, {'kind': 'close_join', 'n': 1, 'applies': 5, 'map': 9, 'imap': 4, 'before_close': 0.4}, {'kind': 'close_join', 'n': 2, 'applies': 0, 'map': 0, 'imap': 0, 'before_close': 0}, {'kind': 'close_join', 'n': 2, 'applies': 0, 'map': 0, 'imap': 0, 'before_close': 0.4}, {'kind': 'close_join', 'n': 2, 'applies': 0, 'map': 0, 'imap': 4, 'before_close': 0}, {'kind': 'close_join', 'n': 2, 'applies': 0, 'map': 0, 'imap': 4, 'before_close': 0.4}, {'kind': 'close_join', 'n': 2, 'applies': 0, 'map': 9, 'imap': 0, 'before_close': 0}, {'kind': 'close_join', 'n': 2, 'applies': 0, 'map': 9, 'imap': 0, 'before_close': 0.4}, {'kind': 'close_join', 'n': 2, 'applies': 0, 'map': 9, 'imap': 4, 'before_close': 0}, {'kind': 'close_join', 'n': 2, 'applies': 0, 'map': 9, 'imap': 4, 'before_close': 0.4}, {'kind': 'close_join', 'n': 2, 'applies': 5, 'map': 0, 'imap': 0, 'before_close': 0}, {'kind': 'close_join', 'n': 2, 'applies': 5, 'map': 0, 'imap': 0, 'before_close': 0.4}, {'kind': 'close_join', 'n': 2, 'applies': 5, 'map': 0, 'imap': 4, 'before_close': 0}, {'kind': 'close_join', 'n': 2, 'applies': 5, 'map': 0, 'imap': 4, 'before_close': 0.4}, {'kind': 'close_join', 'n': 2, 'applies': 5, 'map': 9, 'imap': 0, 'before_close': 0}, {'kind': 'close_join', 'n': 2, 'applies': 5, 'map': 9, 'imap': 0, 'before_close': 0.4}, {'kind': 'close_join', 'n': 2, 'applies': 5, 'map': 9, 'imap': 4, 'before_close': 0}, {'kind': 'close_join', 'n': 2, 'applies': 5, 'map': 9, 'imap': 4, 'before_close': 0.4}, {'kind': 'close_join', 'n': 4, 'applies': 0, 'map': 0, 'imap': 0, 'before_close': 0}, {'kind': 'close_join', 'n': 4, 'applies': 0, 'map': 0, 'imap': 0, 'before_close': 0.4}, {'kind': 'close_join', 'n': 4, 'applies': 0, 'map': 0, 'imap': 4, 'before_close': 0}, {'kind': 'close_join', 'n': 4, 'applies': 0, 'map': 0, 'imap': 4, 'before_close': 0.4}, {'kind': 'close_join', 'n': 4, 'applies': 0, 'map': 9, 'imap': 0, 'before_close': 0}, {'kind': 'close_join', 'n': 4, 'applies': 0, 'map': 9, 'imap': 0, 'before_close': 0.4}, {'kind': 'close_join', 'n': 4, 'applies': 0, 'map': 9, 'imap': 4, 'before_close': 0}, {'kind': 'close_join', 'n': 4, 'applies': 0, 'map': 9, 'imap': 4, 'before_close': 0.4}, {'kind': 'close_join', 'n': 4, 'applies': 5, 'map': 0, 'imap': 0, 'before_close': 0}, {'kind': 'close_join', 'n': 4, 'applies': 5, 'map': 0, 'imap': 0, 'before_close': 0.4}, {'kind': 'close_join', 'n': 4, 'applies': 5, 'map': 0, 'imap': 4, 'before_close': 0}, {'kind': 'close_join', 'n': 4, 'applies': 5, 'map': 0, 'imap': 4, 'before_close': 0.4}, {'kind': 'close_join', 'n': 4, 'applies': 5, 'map': 9, 'imap': 0, 'before_close': 0}, {'kind': 'close_join', 'n': 4, 'applies': 5, 'map': 9, 'imap': 0, 'before_close': 0.4}, {'kind': 'close_join', 'n': 4, 'applies': 5, 'map': 9, 'imap': 4, 'before_close': 0}, {'kind': 'close_join', 'n': 4, 'applies': 5, 'map': 9, 'imap': 4, 'before_close': 0.4}, {'kind': 'close_join', 'n': 2, 'applies': 6, 'maxtasks': 1, 'watchdog': 30}]
+REAL_QUICK = [{'kind': 'close_join', 'n': 2, 'applies': 6, 'threads': False, 'sleep': 0.4}, {'kind': 'close_join', 'n': 2, 'applies': 6, 'map': 7, 'imap': 3}, {'kind': 'close_join', 'n': 3, 'applies': 9, 'before_close': 0.3}, {'kind': 'close_join', 'n': 2, 'applies': 6, 'maxtasks': 1, 'watchdog': 30}]
+REAL_THOROUGH = [{'kind': 'close_join', 'n': 2, 'applies': 6, 'threads': False, 'sleep': 0.4}, {'kind': 'close_join', 'n': 1, 'applies': 3, 'threads': False, 'sleep': 0.3}, {'kind': 'close_join', 'n': 3, 'applies': 9, 'threads': False}, {'kind': 'close_join', 'n': 1, 'applies': 0, 'map': 0, 'imap': 0, 'before_close': 0}, {'kind': 'close_join', 'n': 1, 'applies': 0, 'map': 0, 'imap': 0, 'before_close': 0.4}, {'kind': 'close_join', 'n': 1, 'applies': 0, 'map': 0, 'imap': 4, 'before_close': 0}, {'kind': 'close_join', 'n': 1, 'applies': 0, 'map': 0, 'imap': 4, 'before_close': 0.4}, {'kind': 'close_join', 'n': 1, 'applies': 0, 'map': 9, 'imap': 0, 'before_close': 0}, {'kind': 'close_join', 'n': 1, 'applies': 0, 'map': 9, 'imap': 0, 'before_close': 0.4}, {'kind': 'close_join', 'n': 1, 'applies': 0, 'map': 9, 'imap': 4, 'before_close': 0}, {'kind': 'close_join', 'n': 1, 'applies': 0, 'map': 9, 'imap': 4, 'before_close': 0.4}, {'kind': 'close_join', 'n': 1, 'applies': 5, 'map': 0, 'imap': 0, 'before_close': 0}, {'kind': 'close_join', 'n': 1, 'applies': 5, 'map': 0, 'imap': 0, 'before_close': 0.4}, {'kind': 'close_join', 'n': 1, 'applies': 5, 'map': 0, 'imap': 4, 'before_close': 0}, {'kind': 'close_join', 'n': 1, 'applies': 5, 'map': 0, 'imap': 4, 'before_close': 0.4}, {'kind': 'close_join', 'n': 1, 'applies': 5, 'map': 9, 'imap': 0, 'before_close': 0}, {'kind': 'close_join', 'n': 1, 'applies': 5, 'map': 9, 'imap': 0, 'before_close': 0.4}, {'kind': 'close_join', 'n': 1, 'applies': 5, 'map': 9, 'imap': 4, 'before_close': 0}, {'kind': 'close_join', 'n': 1, 'applies': 5, 'map': 9, 'imap': 4, 'before_close': 0.4}, {'kind': 'close_join', 'n': 2, 'applies': 0, 'map': 0, 'imap': 0, 'before_close': 0}, {'kind': 'close_join', 'n': 2, 'applies': 0, 'map': 0, 'imap': 0, 'before_close': 0.4}, {'kind': 'close_join', 'n': 2, 'applies': 0, 'map': 0, 'imap': 4, 'before_close': 0}, {'kind': 'close_join', 'n': 2, 'applies': 0, 'map': 0, 'imap': 4, 'before_close': 0.4}, {'kind': 'close_join', 'n': 2, 'applies': 0, 'map': 9, 'imap': 0, 'before_close': 0}, {'kind': 'close_join', 'n': 2, 'applies': 0, 'map': 9, 'imap': 0, 'before_close': 0.4}, {'kind': 'close_join', 'n': 2, 'applies': 0, 'map': 9, 'imap': 4, 'before_close': 0}, {'kind': 'close_join', 'n': 2, 'applies': 0, 'map': 9, 'imap': 4, 'before_close': 0.4}, {'kind': 'close_join', 'n': 2, 'applies': 5, 'map': 0, 'imap': 0, 'before_close': 0}, {'kind': 'close_join', 'n': 2, 'applies': 5, 'map': 0, 'imap': 0, 'before_close': 0.4}, {'kind': 'close_join', 'n': 2, 'applies': 5, 'map': 0, 'imap': 4, 'before_close': 0}, {'kind': 'close_join', 'n': 2, 'applies': 5, 'map': 0, 'imap': 4, 'before_close': 0.4}, {'kind': 'close_join', 'n': 2, 'applies': 5, 'map': 9, 'imap': 0, 'before_close': 0}, {'kind': 'close_join', 'n': 2, 'applies': 5, 'map': 9, 'imap': 0, 'before_close': 0.4}, {'kind': 'close_join', 'n': 2, 'applies': 5, 'map': 9, 'imap': 4, 'before_close': 0}, {'kind': 'close_join', 'n': 2, 'applies': 5, 'map': 9, 'imap': 4, 'before_close': 0.4}, {'kind': 'close_join', 'n': 4, 'applies': 0, 'map': 0, 'imap': 0, 'before_close': 0}, {'kind': 'close_join', 'n': 4, 'applies': 0, 'map': 0, 'imap': 0, 'before_close': 0.4}, {'kind': 'close_join', 'n': 4, 'applies': 0, 'map': 0, 'imap': 4, 'before_close': 0}, {'kind': 'close_join', 'n': 4, 'applies': 0, 'map': 0, 'imap': 4, 'before_close': 0.4}, {'kind': 'close_join', 'n': 4, 'applies': 0, 'map': 9, 'imap': 0, 'before_close': 0}, {'kind': 'close_join', 'n': 4, 'applies': 0, 'map': 9, 'imap': 0, 'before_close': 0.4}, {'kind': 'close_join', 'n': 4, 'applies': 0, 'map': 9, 'imap': 4, 'before_close': 0}, {'kind': 'close_join', 'n': 4, 'applies': 0, 'map': 9, 'imap': 4, 'before_close': 0.4}, {'kind': 'close_join', 'n': 4, 'applies': 5, 'map': 0, 'imap': 0, 'before_close': 0}, {'kind': 'close_join', 'n': 4, 'applies': 5, 'map': 0, 'imap': 0, 'before_close': 0.4}, {'kind': 'close_join', 'n': 4, 'applies': 5, 'map': 0, 'imap': 4, 'before_close': 0}, {'kind': 'close_join', 'n': 4, 'applies': 5, 'map': 0, 'imap': 4, 'before_close': 0.4}, {'kind': 'close_join', 'n': 4, 'applies': 5, 'map': 9, 'imap': 0, 'before_close': 0}, {'kind': 'close_join', 'n': 4, 'applies': 5, 'map': 9, 'imap': 0, 'before_close': 0.4}, {'kind': 'close_join', 'n': 4, 'applies': 5, 'map': 9, 'imap': 4, 'before_close': 0}, {'kind': 'close_join', 'n': 4, 'applies': 5, 'map': 9, 'imap': 4, 'before_close': 0.4}, {'kind': 'close_join', 'n': 2, 'applies': 6, 'maxtasks': 1, 'watchdog': 30}]
 
 
 def run(res):
